@@ -830,6 +830,24 @@ def check_c14(tracks, co: CaseOut, fmts=("csv", "csv-display", "geff", "internal
                     fmt = "csv-display" if "lineage_id" in nm else "csv-display-nolin"
                     for s, w in diff_tables(fmt, T, T2, [k for k in loaded if k in ks], []):
                         co.fail(s.replace("csv-display-nolin", "csv-display"), w)
+                    # the same file through the other entry point: the builder reads the PATH itself
+                    def _by_path():
+                        from funtracks.import_export import CSVTracksBuilder
+                        b = CSVTracksBuilder()
+                        b.read_header(d / "b.csv")
+                        b.node_name_map = copy.deepcopy(nm)
+                        return b.build(d / "b.csv")
+                    st, t2p = guarded(_by_path)
+                    co.evals += 1
+                    if st != "ok":
+                        co.fail("C14|csv-display|path-import-raises-" + (type(t2p).__name__ if st == "err" else "hang"),
+                                f"CSVTracksBuilder.build(<path of the display-name file>, {nm}): {_exc(t2p) if st == 'err' else 'hang'}")
+                    else:
+                        T2p = table(t2p)
+                        snap_pos(T2p, T)
+                        _snap_feats(T2p, T, loaded)
+                        for s, w in diff_tables(fmt, T, T2p, [k for k in loaded if k in ks], []):
+                            co.fail(s.replace("csv-display-nolin", "csv-display").replace("C14|csv-display|", "C14|csv-display|by-path|"), w)
         # ---------------------------------------------------------------- GEFF
         if "geff" in fmts:
             co.evals += 1
@@ -1464,14 +1482,26 @@ def plain_c16_cases(rng: random.Random, n: int, res: Result) -> None:
             kw["segmentation"] = np.array(spec["seg"], dtype=np.dtype(spec.get("seg_dtype", "int64"))).reshape(case.shape)
         if case.cfg == "axes":
             kw["pos_attr"] = F.axis_names(case.ndim)
+        no_tid = case.cfg == "pos" and rng.random() < 0.5
         try:
-            t = Tracks(g, **kw)
-            t.features["score"] = {"feature_type": "node", "value_type": "int", "num_values": 1,
-                                   "required": False, "default_value": None}
+            if no_tid:
+                # a SOLUTION whose registry has no tracklet key (an older attrs.json loads like this):
+                # queries that need track ids may raise, but nothing may be computed behind the scenes
+                from funtracks.data_model import SolutionTracks
+                from funtracks.features import FeatureDict, Position, Time
+                for i_, x_ in enumerate(g.nodes):
+                    g.nodes[x_]["track_id"] = 3 + i_
+                fd = FeatureDict({"time": Time(), "pos": Position(F.axis_names(case.ndim))}, time_key="time",
+                                 position_key="pos", tracklet_key=None)
+                t = SolutionTracks(g, features=fd, scale=case.scale, ndim=case.ndim)
+            else:
+                t = Tracks(g, **kw)
+                t.features["score"] = {"feature_type": "node", "value_type": "int", "num_values": 1,
+                                       "required": False, "default_value": None}
         except Exception as e:  # noqa: BLE001
             res.count(f"plain-tracks:construct-raised:{type(e).__name__}")
             continue
-        res.count(f"plain-tracks:cfg:{case.cfg}{case.ndim - 1}d")
+        res.count(f"plain-tracks:cfg:{case.cfg}{case.ndim - 1}d" + (":solution-without-tracklet-key" if no_tid else ""))
         d = tmpdir()
         try:
             sel = set(rng.sample(nodes, rng.randint(1, len(nodes)))) if nodes else set()
@@ -1491,6 +1521,13 @@ def plain_c16_cases(rng: random.Random, n: int, res: Result) -> None:
                           ("get_node_attr", lambda: (t.get_node_attr(n1, "score"), t.get_nodes_attr([n1], "time")))]
                 if case.cfg == "seg":
                     calls.append(("get_pixels", lambda: t.get_pixels(n1)))
+                if no_tid:
+                    calls += [("get_track_id", lambda: t.get_track_id(n1)),
+                              ("get_track_neighbors", lambda: t.get_track_neighbors(3, 1)),
+                              ("get_next_track_id", lambda: t.get_next_track_id())]
+            if no_tid:
+                calls += [("export_to_csv", lambda: export_to_csv(t, d / "q.csv")),
+                          ("export_to_csv(subset)", lambda: export_to_csv(t, d / "qs.csv", node_ids=set(sel)))]
             rng.shuffle(calls)
             for name, call in calls:
                 before = snapshot_plain(t)
